@@ -45,7 +45,7 @@ def tree_hash(root):
 def cache_dir(root):
     # results are keyed by the engine and, per task, by the hashes of exactly the sources the task
     # depends on (task.cache_key()), so an edit to one function re-runs only the tasks that read it
-    d = os.path.join(VERIF, ".cache", engine_hash())
+    d = os.path.join(os.environ.get("PYVC_CACHE_DIR") or os.path.join(VERIF, ".cache"), engine_hash())
     os.makedirs(d, exist_ok=True)
     return d
 
